@@ -150,4 +150,50 @@ def clusterRun (nodes : Cluster) : List COp → Cluster × List Nat
     let r2 := clusterRun r.1 rest
     (r2.1, match r.2 with | some x => x :: r2.2 | none => r2.2)
 
+/-! ### restart from a snapshot taken earlier
+
+`build_snapshot` stores `get_end_id()`; a node that restarts loads that value (`InnerSetLastId` → `set_last_id`) and
+then replays the committed requests since the snapshot, of which only those that opened a block of ids carry a mark
+(`history_table_id`). -/
+
+structure Saved where
+  value : Nat                      -- `get_end_id()` at the time of the snapshot
+  batch : Nat
+  marks : List (Option Nat)        -- marks of the committed requests since, oldest first
+  deriving Repr
+
+def Saved.replay (sv : Saved) : SimpleSeq :=
+  sv.marks.foldl (fun st m => applyMark m st) ⟨0, sv.batch, sv.value⟩
+
+structure Cluster2 where
+  nodes : Cluster
+  saved : Nat → Option Saved
+
+inductive COp2 where
+  | issue (leader : Nat)
+  | restart (node : Nat)           -- snapshot now + reload
+  | snapshot (node : Nat)          -- the node compacts: the snapshot it will restart from
+  | restartSaved (node : Nat)      -- restart from that snapshot + replay of the log since
+  deriving Repr, DecidableEq
+
+def cluster2Step (c : Cluster2) : COp2 → Cluster2 × Option Nat
+  | .issue i =>
+    let r := clusterStep c.nodes (.issue i)
+    let mark := ((c.nodes i).nextState).1.2
+    ({ nodes := r.1, saved := fun j => (c.saved j).map fun sv => { sv with marks := sv.marks ++ [mark] } }, r.2)
+  | .restart i => ({ c with nodes := (clusterStep c.nodes (.restart i)).1 }, none)
+  | .snapshot i =>
+    ({ c with saved := fun j => if j = i then some ⟨(c.nodes i).endId, (c.nodes i).batch, []⟩ else c.saved j }, none)
+  | .restartSaved i =>
+    match c.saved i with
+    | none => (c, none)
+    | some sv => ({ c with nodes := fun j => if j = i then sv.replay else c.nodes j }, none)
+
+def cluster2Run (c : Cluster2) : List COp2 → Cluster2 × List Nat
+  | [] => (c, [])
+  | op :: rest =>
+    let r := cluster2Step c op
+    let r2 := cluster2Run r.1 rest
+    (r2.1, match r.2 with | some x => x :: r2.2 | none => r2.2)
+
 end RNacos.Sequence
